@@ -18,6 +18,7 @@ func init() {
 			{Name: "H_C01_flat_q", Tier: "quick", What: "3 metrics, d<=2, n<=2 vectors, <=1 op (Remove any id incl. unknown / Flush), every id restriction over the ids + a foreign id, k any int, threshold any float32>=0", Covers: []string{"nonempty-result", "something-left-out", "query-rejected"}},
 			{Name: "H_C01_flat_q3", Tier: "quick", What: "3 metrics, d=1, n=3, 5 id-restriction patterns, k, threshold symbolic", Covers: []string{"nonempty-result", "something-left-out"}},
 			{Name: "H_C01_flat_qh", Tier: "quick", What: "histories: l2sq, d=1, n<=2 then <=3 ops from Remove/Flush/Add(fresh), k symbolic", Covers: []string{"nonempty-result", "something-left-out"}},
+			{Name: "H_C01_flat_masks", Tier: "quick", What: "l2sq / cosine, 7 concrete vectors (ids out of insertion order), EVERY subset removed (128 masks), Flush, one more Add (fresh id or update of a removed id), one more removal, second Flush: exact top-k at each of the five points; k over all of int", Covers: []string{"ran"}},
 			{Name: "H_C01_flat_many", Tier: "quick", What: "12 concrete vectors (one removed, optional flush) — more than the builder's default k=10 — concrete query, k over all of int or left at the default, symbolic threshold, optional id restriction: exact top-k oracle ('all eligible ones if k<=0' is only observable above the default)", Covers: []string{"more-than-default-k"}},
 			{Name: "H_C01_flat_dim", Tier: "quick", What: "wrong-dimension add / query, missing query are errors and change nothing", Covers: []string{"ran"}},
 			{Name: "H_C01_flat_t", Tier: "thorough", What: "3 metrics, d=1, n<=2, <=2 ops incl. Add, all filters (d=2 with <=1 op is H_C01_flat_t3)", Covers: []string{"nonempty-result"}},
